@@ -73,6 +73,33 @@ def switchCost : List ((Nat → α) × α) → List Nat → α
 def totalCost (pts : List ((Nat → α) × α)) (ls : List Nat) : α :=
   assignCost pts ls + switchCost pts ls
 
+/-! ### executable refinement
+
+`back` returns closures, so evaluating it re-computes the whole suffix for every
+lookup (exponential).  `backFast` stores each row on `[0, K)` as a list — exactly what the
+NumPy arrays `future_cost_vals[i]` / `path_matrix[i]` are.  `viterbiFast_eq`
+(Props/C01.lean) proves it returns the same labels and cost as `viterbi`; the driver
+runs `viterbiFast`. -/
+
+/-- rows stored as arrays of length `K` (lists), so nothing is recomputed. -/
+def backFast (K : Nat) : List ((Nat → α) × α) → List α × List (List Nat)
+  | [] => (List.replicate K 0, [])
+  | [_] => (List.replicate K 0, [])
+  | p :: q :: rest =>
+    let r := backFast K (q :: rest)
+    let fut' : Nat → α := fun c => r.1.getD c 0
+    ((List.range K).map (stepFuture K fut' q.1 p.2),
+     (List.range K).map (stepPath K fut' q.1 p.2) :: r.2)
+
+def viterbiFast (K : Nat) (pts : List ((Nat → α) × α)) : List Nat × α :=
+  match pts with
+  | [] => ([], 0)
+  | p :: _ =>
+    let r := backFast K pts
+    let fut : Nat → α := fun c => r.1.getD c 0
+    let start := argmin (fun c => fut c + p.1 c) K
+    (start :: follow (r.2.map (fun l c => l.getD c 0)) start, fut start + p.1 start)
+
 /-- scalar beta: line 140 `np.zeros(T) + beta`. -/
 def withScalarBeta (rows : List (Nat → α)) (b : α) : List ((Nat → α) × α) :=
   rows.map (fun r => (r, b))
